@@ -79,10 +79,45 @@ Section Signer.
 
   Definition sess_check := sess_check_with check_hex.
 
+  (** [Sessions.CheckState]: a live session whose payload is empty;
+      [Sessions.CheckJSON]: a live session whose payload [encoding/json] reads
+      ([json_ok] stands for [json.Unmarshal] succeeding into the caller's value). *)
+  Definition sess_check_state (k : K) (now : Z) (s : list N) : bool :=
+    match sess_check k now s with
+    | Some ([], _) => true
+    | _ => false
+    end.
+
+  Definition sess_check_json (json_ok : bytes -> bool) (k : K) (now : Z) (s : list N) : bool :=
+    match sess_check k now s with
+    | Some (d, _) => json_ok d
+    | None => false
+    end.
+
+  (** [Sessions.NewState]: a session without payload for the configured lifetime. *)
+  Definition sess_new_state (k : K) (maxttl t0 : Z) : list N := fst (sess_new k maxttl t0 0 []).
+
   (** [refreshTTL] / [Sessions.NeedRefresh]: a fifth of the configured
       lifetime (Go's integer division; zero when the lifetime is not positive). *)
   Definition refresh_ttl (maxttl : Z) : Z := if maxttl <=? 0 then 0 else maxttl / 5.
   Definition need_refresh (maxttl left : Z) : bool := left <? refresh_ttl maxttl.
+
+  (** ** [authgate.Gate.CheckToken]: the session, then the caller's check
+      callback about the user named in it.  [cb u = None]: the callback
+      returned an error (the gate returns it and no information); [Some lvl]:
+      the level it granted (negative: the user is refused). *)
+  Record gate_info := mkGI { gi_valid : bool; gi_user : bytes; gi_level : Z; gi_refresh : bool }.
+
+  Definition gate_check_token (cb : bytes -> option Z) (k : K) (maxttl now : Z) (s : list N)
+    : option gate_info :=
+    match sess_check k now s with
+    | None => Some (mkGI false [] 0 false)
+    | Some (u, lft) =>
+        match cb u with
+        | None => None
+        | Some lvl => Some (mkGI (0 <=? lvl) u lvl (need_refresh maxttl lft))
+        end
+    end.
 
   (** ** Signed challenges (signer.go NewSignedChallenge / CheckChallenge)
 
